@@ -22,8 +22,9 @@ import numpy as np
 from check import Failure
 from sfv import gen
 from sfv.canon import tok, untok
+from sfv.props import c15_reduce_gen as rgen       # the decision skeletons translated from the source (py2lean_reduce)
 
-TARGETS = ['SFModel.Props.C15']
+TARGETS = ['SFModel.Props.C15'] + rgen.TARGETS
 THEOREMS = [
     'SF.C15.unity_only_for_propagating', 'SF.C15.composable_table', 'SF.C15.axis0_per_column', 'SF.C15.axis0_one_row_unity', 'SF.C15.unity_claim',
     'SF.C15.axis1_per_row', 'SF.C15.axis1_per_row_consolidated', 'SF.C15.reduce_layout_invariant',
@@ -32,19 +33,19 @@ THEOREMS = [
     'SF.C15.skipna_irrelevant_without_missing', 'SF.C15.cumGo_length', 'SF.C15.cumulative_shape', 'SF.C15.cumGo_prefix',
     'SF.C15.cumulative_prefix', 'SF.C15.nanArgBestGo_spec', 'SF.C15.arg_best_present', 'SF.C15.arg_best_1d_missing',
     'SF.C15.sumInt_lawful', 'SF.C15.minInt_lawful', 'SF.C15.logical_skipna_is_reduction', 'SF.C15.logical_skipna_nat_kind',
-]
+] + rgen.THEOREMS
 PARTIAL = ['SF.C15.axis1_per_row: the two-stage path equals the per-row reduction only for lawful reductions (associative operation, '
            'identity when the ufunc has one); the statement for an arbitrary per-vector function is false '
            '(composable_needs_reduction_counterexample) - which is why the table marks sum/prod/mean/... non-composable',
-           'floating-point rounding, integer overflow and the output dtype chosen by NumPy are outside the model (exact arithmetic)']
+           'floating-point rounding, integer overflow and the output dtype chosen by NumPy are outside the model (exact arithmetic)'] + rgen.PARTIAL
 CORR_ONLY = ['mean, median, std, var (ddof), loc_min/loc_max/iloc_min/iloc_max, cumsum, cumprod and every reduction on bool / object / '
              'string / datetime columns: oracle on the real code (per-column / per-row Series reference, layout invariance, exception parity)']
 RULE = ('seeded frames of 0-4 rows x 0-4 columns (int / float with NaN; + bool; bool only; object with None/NaN + numbers; str only; datetime64 with NaT only; exactly representable values) '
         'x every block layout of the column dtypes (at most 24) x 16 functions x axis x skipna (x ddof); '
-        'non-trivial = at least one cell; distinct = distinct case JSON')
+        'non-trivial = at least one cell; distinct = distinct case JSON; ' + rgen.RULE)
 TRUSTED = ['NumPy ufunc pairs (np.sum/np.nansum ...) on one array are the parameter `Red.apply` of the model: identity, associativity, '
            'missing ignored / propagated (compared on every run through the per-vector reference)',
-           'Series reductions are the reference of the oracle (a Series is a single 1-D array)']
+           'Series reductions are the reference of the oracle (a Series is a single 1-D array)'] + rgen.TRUSTED
 ASSUMPTIONS = ['values are small integers / dyadic floats so that every sum and product is exact in float64 and int64',
                'mean / median / std / var are compared with relative tolerance 1e-12 (same NumPy kernel, possibly different summation shape)']
 BUDGET = {'quick': 70, 'thorough': 800}
@@ -113,6 +114,8 @@ def spec_dts(spec):
 
 
 def nontrivial(c):
+    if c['k'].startswith('rg_'):
+        return rgen.nontrivial(c)
     if c['k'] == 'desc':
         return True
     if c['k'] == 'logical':
@@ -124,6 +127,7 @@ def cases(ctx):
     rng = ctx.rng('main')
     quick = ctx.tier == 'quick'
     yield {'k': 'desc'}
+    yield from rgen.cases(ctx)      # the translated decision skeletons vs the real util functions (grid, instrumented callables)
     # util._ufunc_logical_skipna on one vector of every dtype kind
     for _ in range(150 if quick else 1500):
         kind = rng.choice(['b', 'int', 'str', 'inexact', 'nat', 'obj'])
@@ -268,6 +272,8 @@ def tb_wire(spec, layout, logical):
 
 
 def model_lines(c):
+    if c['k'].startswith('rg_'):
+        return rgen.model_lines(c)
     if c['k'] == 'desc':
         return [f'reduce.desc {fn}' for fn in FNS_RED + FNS_CUM]
     if c['k'] == 'logical':
@@ -536,6 +542,8 @@ def pyref_check(c, res, labels, d):
 
 # --------------------------------------------------------------------------- evaluation
 def evaluate(ctx, c, outs):
+    if c['k'].startswith('rg_'):
+        return rgen.evaluate(ctx, c, outs)
     if c['k'] == 'desc':
         return eval_desc(ctx, c, outs)
     if c['k'] == 'logical':
@@ -982,6 +990,8 @@ def classify(f):
     and the layout - never on the observed value alone."""
     d = f.detail or {}
     c = f.case or {}
+    if str(c.get('k', '')).startswith('rg_'):
+        return rgen.classify(f)
     if c.get('k') == 'logical' and d.get('kind') == 'logical_vector':
         # any() over datetimes that are all NaT, with skipna: "all dates are truthy" includes NaT
         if c['kind'] == 'nat' and c['which'] == 'any' and c['skipna'] and c['cells'] and all(x is None for x in c['cells']):
